@@ -496,8 +496,24 @@ class CallGraph:
             inner = self._partial_target(tgt)
             if inner is not None:
                 return self._from_target(fi, inner, name)[0], 'partial'
+            if self._is_record_type(tgt):
+                return [], 'record-type'
             return self.dynamic_ctor(fi), 'value'
         return None, 'unresolved'
+
+    def _is_record_type(self, vref):
+        """A module-level `Name = collections.namedtuple(...)` (or typing.NamedTuple(...)): constructing it runs no code
+        of the package."""
+        if not vref.exprs:
+            return False
+        e = vref.exprs[-1]
+        if not isinstance(e, ast.Call):
+            return False
+        try:
+            head = self.model.resolve_expr(vref.modname, e.func)
+        except Exception:
+            return False
+        return isinstance(head, ExternalRef) and head.dotted in ('collections.namedtuple', 'typing.NamedTuple')
 
     def _partial_target(self, vref):
         """A module-level `name = functools.partial(f, ...)`: calling the name calls f."""
